@@ -38,6 +38,9 @@ type Opts struct {
 	Describable bool
 	// ScopeRoot forces the root to be a scope.
 	ScopeRoot bool
+	// TypedContainers builds some lists / maps of scalars with the typed constructors (their unserialized form is a
+	// typed slice / map, so only checks that do not compare against the model's native forms switch it on).
+	TypedContainers bool
 }
 
 // Full enables every feature.
@@ -158,7 +161,16 @@ func (c *ctx) unitsDef() *units.Def {
 func Spec(o Opts) *rapid.Generator[*spec.Spec] {
 	return rapid.Custom(func(t *rapid.T) *spec.Spec {
 		c := &ctx{t: t, o: o}
-		return c.top()
+		s := c.top()
+		if o.TypedContainers && !o.Describable {
+			spec.Walk(s, func(n *spec.Spec) {
+				if spec.TypedContainer(n) && rapid.IntRange(0, 2).Draw(t, "typedContainer") == 0 {
+					n.Typed = true
+					ev.Class("typed_container:"+n.Kind, 1)
+				}
+			})
+		}
+		return s
 	})
 }
 
@@ -509,10 +521,19 @@ func (c *ctx) object(depth int, structName string) *spec.Spec {
 	// the single-property shorthand recurse forever on any non-map input. Such objects are excluded here by
 	// construction (counted) and exercised by C04's dedicated case.
 	if len(selfRefs) > 0 && len(o.Props) == 1 {
-		if strings.TrimPrefix(structName, "*") == "PairB" {
-			o.Props = append(o.Props, spec.Prop{Name: "s", Type: &spec.Spec{Kind: spec.KString}})
-		} else {
-			o.Props = append(o.Props, spec.Prop{Name: "v", Type: &spec.Spec{Kind: spec.KInt}})
+		// a second property: the first scalar field of the struct
+		for _, f := range spec.Fields(structName) {
+			if f.Prop == "k" || f.Prop == "ki" {
+				continue
+			}
+			if f.Type == typeInt64 {
+				o.Props = append(o.Props, spec.Prop{Name: f.Prop, Type: &spec.Spec{Kind: spec.KInt}})
+				break
+			}
+			if f.Type == typeString {
+				o.Props = append(o.Props, spec.Prop{Name: f.Prop, Type: &spec.Spec{Kind: spec.KString}})
+				break
+			}
 		}
 		c.fixStruct(o)
 		ev.Class("excluded_known:shorthand-selfref", 1)
@@ -754,6 +775,11 @@ func AddDefaults(t *rapid.T, root *spec.Spec, o Opts) {
 					switch sub.Props[0].Type.Kind {
 					case spec.KInt, spec.KFloat, spec.KString, spec.KBool, spec.KEnumI, spec.KEnumS:
 						if d, ok := defaultText(t, sub.Props[0].Type, senv); ok {
+							if json.Unmarshal([]byte(d), new(any)) != nil {
+								// the bare-string form is only retried with quotes for string-typed properties
+								q, _ := json.Marshal(d)
+								d = string(q)
+							}
 							p.Default = &d
 							ev.Class("default_is_shorthand", 1)
 							continue
